@@ -17,6 +17,7 @@ from pyPRISM.potential.LennardJones import LennardJones
 from pyPRISM.potential.HardCoreLennardJones import HardCoreLennardJones
 from pyPRISM.potential.WeeksChandlerAndersen import WeeksChandlerAndersen
 
+from .. import suite as SUITE
 from .. import refmodel as R
 from .. import gen as G
 
@@ -145,6 +146,8 @@ DRS = [0.1, 0.05, 0.025, 0.2, 0.125, 0.25]
 
 
 def cases(ctx):
+    if ctx.mine(1):
+        yield {'kind': 'repo_suite'}          # the repository's own tests, run in-process under this check's monitors
     rng = ctx.rng('c10')
     n = ctx.budget(1500, 60000)
     kinds = list(KINDS)
@@ -390,6 +393,8 @@ def run_system(ctx, case):
 
 
 def run_case(ctx, case):
+    if case.get('kind') == 'repo_suite':
+        return SUITE.run(ctx, pattern='[!C]*_test.py')       # everything but the CalcPRISM tests (17 s of solving that adds no events here)
     if case['kind'] == 'func':
         return run_func(ctx, case)
     return run_system(ctx, case)
